@@ -29,8 +29,9 @@ static std::vector<Conv> convs() {
 
 struct Cfg {
   int conv_index; uint32_t gp_dirty_sel, vec_dirty_sel, k_dirty_sel; uint32_t local_size, local_align, call_size, call_align; bool fp, calls; int avx; int sp_sel; int nargs;
+  int order = 0;   // 0: local stack attributes are set before the call stack attributes; 1: the register allocator's order (update_call_stack_* first, set_local_stack_* last)
   std::string str() const {
-    char b[256]; snprintf(b, sizeof b, "conv=%d gp=%u vec=%u k=%u lsize=%u lalign=%u csize=%u calign=%u fp=%d calls=%d avx=%d sp=%d nargs=%d", conv_index, gp_dirty_sel, vec_dirty_sel, k_dirty_sel, local_size, local_align, call_size, call_align, fp, calls, avx, sp_sel, nargs);
+    char b[256]; snprintf(b, sizeof b, "conv=%d gp=%u vec=%u k=%u lsize=%u lalign=%u csize=%u calign=%u fp=%d calls=%d avx=%d sp=%d nargs=%d order=%d", conv_index, gp_dirty_sel, vec_dirty_sel, k_dirty_sel, local_size, local_align, call_size, call_align, fp, calls, avx, sp_sel, nargs, order);
     return b;
   }
 };
@@ -86,8 +87,13 @@ static bool run_cfg(const Cfg& cf) {
   if (cf.calls) frame.set_func_calls();
   if (is_x86 && cf.avx >= 1) frame.set_avx_enabled();
   if (is_x86 && cf.avx == 2) frame.set_avx512_enabled();
-  frame.set_local_stack_size(cf.local_size); if (cf.local_align) frame.set_local_stack_alignment(cf.local_align);
-  frame.set_call_stack_size(cf.call_size); if (cf.call_align) frame.set_call_stack_alignment(cf.call_align);
+  if (cf.order == 0) {
+    frame.set_local_stack_size(cf.local_size); if (cf.local_align) frame.set_local_stack_alignment(cf.local_align);
+    frame.set_call_stack_size(cf.call_size); if (cf.call_align) frame.set_call_stack_alignment(cf.call_align);
+  } else {
+    frame.update_call_stack_size(cf.call_size); if (cf.call_align) frame.update_call_stack_alignment(cf.call_align);
+    frame.set_local_stack_size(cf.local_size); if (cf.local_align) frame.set_local_stack_alignment(cf.local_align);
+  }
   if (frame.finalize() != Error::kOk) FAIL("finalize", "FuncFrame::finalize failed");
   g_da = frame.has_dynamic_alignment();
 
@@ -127,6 +133,7 @@ static bool run_cfg(const Cfg& cf) {
   uint64_t sp = m.sp();
   bool uses_stack = cf.local_size || cf.call_size || cf.calls;
   uint32_t fa = frame.final_stack_alignment();
+  if (fa < cf.local_align || fa < cf.call_align) FAIL("final-alignment", "final_stack_alignment() = %u is smaller than a requested alignment (local %u, call %u)", fa, cf.local_align, cf.call_align);
   if (uses_stack && fa && (sp % fa)) FAIL("sp-alignment", "stack pointer %llx inside the body is not aligned to the promised %u", (unsigned long long)sp, fa);
   if (!is_x86 && (sp & 15)) FAIL("sp-alignment", "AArch64 stack pointer %llx inside the body is not 16-byte aligned", (unsigned long long)sp);
   uint64_t local_lo = sp + frame.local_stack_offset(), local_hi = local_lo + cf.local_size;
@@ -211,6 +218,7 @@ static Cfg draw(xplor::Chooser& ch, int conv_index, int arch) {
   cf.sp_sel = ch.choose(4);
   static const int na[] = {2, 0, 7, 10};
   cf.nargs = na[ch.choose(4)];
+  cf.order = ch.choose(2);
   return cf;
 }
 
@@ -220,7 +228,7 @@ int main(int argc, char** argv) {
   if (c.replaying()) {
     Cfg cf{}; int fp, calls;
     for (auto& line : vh::split(c.replay_text, '\n')) if (line.rfind("conv=", 0) == 0) {
-      sscanf(line.c_str(), "conv=%d gp=%u vec=%u k=%u lsize=%u lalign=%u csize=%u calign=%u fp=%d calls=%d avx=%d sp=%d nargs=%d", &cf.conv_index, &cf.gp_dirty_sel, &cf.vec_dirty_sel, &cf.k_dirty_sel, &cf.local_size, &cf.local_align, &cf.call_size, &cf.call_align, &fp, &calls, &cf.avx, &cf.sp_sel, &cf.nargs);
+      sscanf(line.c_str(), "conv=%d gp=%u vec=%u k=%u lsize=%u lalign=%u csize=%u calign=%u fp=%d calls=%d avx=%d sp=%d nargs=%d order=%d", &cf.conv_index, &cf.gp_dirty_sel, &cf.vec_dirty_sel, &cf.k_dirty_sel, &cf.local_size, &cf.local_align, &cf.call_size, &cf.call_align, &fp, &calls, &cf.avx, &cf.sp_sel, &cf.nargs, &cf.order);
       cf.fp = fp; cf.calls = calls;
       if (!run_cfg(cf)) report(cf);
     }
